@@ -2,7 +2,9 @@
 """findings.py add --id F2a --prop C02 --rule R --what TEXT k=v k=v ...   (witness = smallest matching replay file)
    findings.py fixed "fixed: property=C02 <commit> <what>" """
 import json,sys,glob,os
-F='/verif/known_findings.json'
+import os
+ROOT=os.path.dirname(os.path.dirname(os.path.abspath(__file__)))
+F=ROOT+'/known_findings.json'
 d=json.load(open(F))
 if sys.argv[1]=='fixed':
     d['fixed'].append(sys.argv[2]); json.dump(d,open(F,'w'),indent=1); sys.exit(0)
@@ -14,7 +16,7 @@ while i<len(a):
     else:
         k,v=a[i].split('=',1); match[k]=v; i+=1
 best=None
-for f in glob.glob('/verif/replays/%s-*.json'%opt['prop']):
+for f in glob.glob(ROOT+'/replays/%s-*.json'%opt['prop']):
     r=json.load(open(f))
     if r['rule']!=opt['rule']: continue
     if all(r['sig'].get(k)==v for k,v in match.items()):
